@@ -44,26 +44,29 @@ LenTable == TLCEval([fm \in AllFmts |->
 EolTable == TLCEval([fm \in AllFmts |->
               TLCEval([k \in 1..Len(C!ShapesOf(fm)) |-> IF C!ShapesOf(fm)[k].eol = "CRLF" THEN 2 ELSE 1])])
 
-RECURSIVE Sums(_, _, _, _)
-Sums(fm, recs, k, acc) == IF k > Len(recs) THEN acc
-                          ELSE Sums(fm, recs, k + 1, Append(acc, acc[k] + LenTable[fm][recs[k]]))
-StartsOf(e) == Sums(e.fmt, e.recs, 1, <<0>>)         \* st[k] = offset of record k, st[N+1] = size of the file
+(* offset of record k of the file (k = N+1: size of the file): sum of the lengths of the shapes before it *)
+RECURSIVE SumRange(_, _, _, _)         \* divide and conquer: recursion depth log N (files of 30 000 records)
+SumRange(fm, recs, a, b) ==
+  IF a > b THEN 0
+  ELSE IF a = b THEN LenTable[fm][recs[a]]
+  ELSE LET m == (a + b) \div 2 IN SumRange(fm, recs, a, m) + SumRange(fm, recs, m + 1, b)
+StartOf(e, k) == SumRange(e.fmt, e.recs, 1, k - 1)
 
 ShapesKnown(e) == \A k \in 1..Len(e.recs) : e.recs[k] \in 1..Len(LenTable[e.fmt])
 
 CutsOK(e) ==
-  LET st == StartsOf(e)
-      N  == Len(e.recs)
+  LET N  == Len(e.recs)
       n  == Len(e.cuts)
   IN  /\ n >= 1
-      /\ st[N + 1] = e.size
+      /\ StartOf(e, N + 1) = e.size
       /\ \A k \in 1..n :
            LET c == e.cuts[k] IN        \* <<from, to, order, first, next>>
            /\ c[3] = k - 1
-           /\ c[4] \in 1..N /\ st[c[4]] = c[1]                       \* starts where record `first` starts
+           /\ c[4] \in 1..N /\ StartOf(e, c[4]) = c[1]                 \* starts where record `first` starts
            /\ c[5] \in (c[4] + 1)..(N + 1)
-           /\ c[2] <= st[c[5]] /\ c[2] >= st[c[5]] - EolTable[e.fmt][e.recs[c[5] - 1]]   \* whole records
-           /\ c[4] = IF k = 1 THEN 1 ELSE e.cuts[k - 1][5]           \* nothing skipped, nothing twice
+           /\ LET nx == StartOf(e, c[5]) IN                            \* whole records: ends in the end-of-line
+                c[2] <= nx /\ c[2] >= nx - EolTable[e.fmt][e.recs[c[5] - 1]]   \* of the last one
+           /\ c[4] = IF k = 1 THEN 1 ELSE e.cuts[k - 1][5]              \* nothing skipped, nothing twice
            /\ (k = n) => c[5] = N + 1
 
 IsPerm(o) == /\ \A k \in 1..Len(o) : o[k] \in 0..(Len(o) - 1)
